@@ -226,6 +226,49 @@ func scenarioC11(c *RunCtx) {
 		c.Count("probe.reexpressed_after_mutation")
 		c.Steps++
 	}
+	// restore into a used organism: an organism object that has been evaluated (its phenotype is cached) receives the
+	// saved binary form of another organism (a caller that recycles organism objects, or a gob decode into a structure
+	// that already holds one); what it then reports as its phenotype must express the genome it holds now
+	if len(w.Pop.Organisms) >= 2 && t.Chance("restoreInto", 1, 2) {
+		ai := t.Draw("restoreInto.target", len(w.Pop.Organisms))
+		bi := t.Draw("restoreInto.source", len(w.Pop.Organisms))
+		a, b := w.Pop.Organisms[ai], w.Pop.Organisms[bi]
+		if len(a.Genotype.Genes) > 0 && len(b.Genotype.Genes) > 0 {
+			if t.Chance("restoreInto.mutateSource", 2, 3) {
+				// make sure the source differs in structure from the target
+				seedLib(int64(t.Draw("restoreInto.libseed", 1<<31)))
+				c.LibSoft("mutation of the source", func() {
+					if t.Chance("restoreInto.addnode", 1, 2) {
+						_, _ = genetics.VerifMutateAddNode(b.Genotype, w.Pop, w.Pop, w.Opts)
+					} else {
+						gi := t.Draw("restoreInto.gene", len(b.Genotype.Genes))
+						b.Genotype.Genes[gi].IsEnabled = !b.Genotype.Genes[gi].IsEnabled
+					}
+				})
+			}
+			var data []byte
+			var merr, uerr error
+			c.LibSoft("Organism.Phenotype", func() { _, _ = a.Phenotype() })
+			c.LibSoft("Organism.MarshalBinary", func() { data, merr = b.MarshalBinary() })
+			if merr == nil {
+				c.LibSoft("Organism.UnmarshalBinary", func() { uerr = a.UnmarshalBinary(data) })
+			}
+			if merr == nil && uerr == nil {
+				rec := Canon(a.Genotype)
+				var net *network.Network
+				var err error
+				c.Lib("Organism.Phenotype", func() { net, err = a.Phenotype() })
+				if err != nil {
+					c.Fail("organism-phenotype-error", "Phenotype() of organism %d failed after UnmarshalBinary(): %v\n%s", ai, err, rec.Pretty())
+				}
+				if cl, d := RefExpress(rec).CompareNetwork(net); cl != "" {
+					c.Fail("organism-phenotype:"+cl, "organism %d had been expressed and then received the binary form of organism %d through UnmarshalBinary(); its phenotype does not express the genome it holds now: %s\n%s", ai, bi, d, rec.Pretty())
+				}
+				c.Count("probe.restored_into_used_organism")
+				c.Steps++
+			}
+		}
+	}
 	// modular genomes
 	switch t.Pick("modular", 2, 1, 2) {
 	case 1:
